@@ -24,7 +24,14 @@ fn execd(args: &[String]) -> i32 {
         let k: libcnb_data::exec_d::ExecDProgramOutputKey = kv[0].as_str().unwrap().parse().expect("key");
         map.insert(k, kv[1].as_str().unwrap().to_string());
     }
-    libcnb::exec_d::write_exec_d_program_output(libcnb_data::exec_d::ExecDProgramOutput::new(map));
+    // both public construction paths: the map constructor, and (odd number of pairs) the documented conversion from an
+    // iterator of pairs that `write_exec_d_program_output(impl Into<ExecDProgramOutput>)` invites
+    if v.as_array().unwrap().len() % 2 == 1 {
+        let pairs: Vec<(libcnb_data::exec_d::ExecDProgramOutputKey, String)> = v.as_array().unwrap().iter().map(|kv| (kv[0].as_str().unwrap().parse().expect("key"), kv[1].as_str().unwrap().to_string())).collect();
+        libcnb::exec_d::write_exec_d_program_output(pairs);
+    } else {
+        libcnb::exec_d::write_exec_d_program_output(libcnb_data::exec_d::ExecDProgramOutput::new(map));
+    }
     0
 }
 
